@@ -497,3 +497,85 @@ Section CloseRows.
           intros x Hx. apply in_or_app. right. apply H2. exact Hx.
   Qed.
 End CloseRows.
+
+(* ------------------------------------------------------------ Part 6: the keys of the closing transactions *)
+
+Definition ind (k : account * commodity) (a : account) (c : commodity) : Q := if keq (a, c) k then 1 else 0.
+
+Lemma closing_txns_keys S vs : vals_zero vs -> forall m ac,
+  (exists x, In x (txns_postings (closing_txns S m vs)) /\ key_of x = ac) <->
+  (exists e : pentry, In e m /\ is_zero (snd (snd e)) = false /\ snd ac = snd (fst (snd e))
+                      /\ (fst ac = fst (fst (snd e)) \/ fst ac = equity_account)).
+Proof.
+  intros Hv. induction m as [|[k0 [[a c] qy]] m IH]; intros ac; cbn [closing_txns].
+  - split; [intros (x & [] & _)|intros (e & [] & _)].
+  - rewrite (pos_get0_vz vs a c Hv), andb_true_r. destruct (is_zero qy) eqn:Ez.
+    + rewrite IH. split; intros (e & He & H1 & H2).
+      * exists e. split; [right; exact He|split; assumption].
+      * destruct He as [<-|He]; [cbn [snd] in H1; congruence|]. exists e. split; [exact He|split; assumption].
+    + unfold txns_postings in *. cbn [map concat t_date t_postings]. split.
+      * intros (x & Hx & Hk). apply in_app_or in Hx. destruct Hx as [Hx|Hx].
+        -- exists (k0, (a, c, qy)). split; [left; reflexivity|]. cbn [fst snd]. split; [exact Ez|]. subst ac.
+           unfold pair_build in Hx. destruct (is_neg qy || is_zero qy && is_neg _); cbn [map] in Hx;
+             destruct Hx as [<-|[<-|[]]]; unfold key_of; cbn [fst snd p_acc p_com]; tauto.
+        -- destruct (proj1 (IH ac) (ex_intro _ x (conj Hx Hk))) as (e & He & H1). exists e. split; [right; exact He|exact H1].
+      * intros (e & He & H1 & H2 & H3). destruct He as [<-|He].
+        -- cbn [fst snd] in H2, H3. destruct ac as [a' c']. cbn [fst snd] in H2, H3. subst c'.
+           unfold pair_build. destruct (is_neg qy || is_zero qy && is_neg _); cbn [map];
+             destruct H3 as [->| ->];
+             first [ eexists; split; [apply in_or_app; left; left; reflexivity|reflexivity]
+                   | eexists; split; [apply in_or_app; left; right; left; reflexivity|reflexivity] ].
+        -- destruct (proj2 (IH ac) (ex_intro _ e (conj He (conj H1 (conj H2 H3))))) as (x & Hx & Hk).
+           exists x. split; [apply in_or_app; right; exact Hx|exact Hk].
+Qed.
+
+Lemma msum_ind_absent m k : Forall entry_ok m -> account_ok (fst k) = true ->
+  (forall e : pentry, In e m -> fst e <> pos_key (fst k) (snd k)) -> msum (ind k) m == 0.
+Proof.
+  intros Hok Hk Hne. apply qsum_zero. intros [k0 [[a c] qy]] Hin. cbn [fst snd]. unfold ind.
+  destruct (keq (a, c) k) eqn:E; [|ring]. exfalso.
+  rewrite Forall_forall in Hok. destruct (Hok _ Hin) as (H1 & H2 & _). cbn [fst snd] in H1, H2.
+  assert (Ek : (a, c) = k) by (apply keq_eq; assumption). subst k. apply (Hne _ Hin). exact H1.
+Qed.
+
+Lemma msum_ind_present : forall m k0 a c qy, map_ok m -> In (k0, (a, c, qy)) m -> msum (ind (a, c)) m == dvalue qy.
+Proof.
+  induction m as [|e m IH]; intros k0 a c qy [Hs Hok] Hin; [destruct Hin|].
+  inversion Hs as [|? ? Hs' Hall]; subst. inversion Hok as [|? ? He Hok']; subst. rewrite Forall_forall in Hall.
+  assert (Hthis : forall e0 : pentry, In e0 (e :: m) -> entry_ok e0) by (apply Forall_forall; exact Hok).
+  destruct (Hthis _ Hin) as (Hk0 & Ha & _). cbn [fst snd] in Hk0, Ha.
+  rewrite msum_cons. destruct Hin as [->|Hin].
+  - cbn [fst snd]. unfold ind at 1. rewrite keq_refl.
+    rewrite (msum_ind_absent m (a, c) Hok' Ha); [ring|].
+    intros e0 He0 Heq. specialize (Hall _ He0). unfold key_lt in Hall. cbn [fst snd] in Hall, Heq.
+    rewrite Heq, <- Hk0 in Hall. exact (str_cmp_lt_irrefl _ Hall).
+  - rewrite (IH k0 a c qy (conj Hs' Hok') Hin).
+    destruct e as [k1 [[a1 c1] q1]]. cbn [fst snd]. unfold ind.
+    destruct (keq (a1, c1) (a, c)) eqn:E; [|ring]. exfalso.
+    destruct He as (H1 & H2 & _). cbn [fst snd] in H1, H2.
+    assert (Ek : (a1, c1) = (a, c)) by (apply keq_eq; assumption). inversion Ek; subst a1 c1.
+    specialize (Hall _ Hin). unfold key_lt in Hall. cbn [fst] in Hall. rewrite H1, <- Hk0 in Hall.
+    exact (str_cmp_lt_irrefl _ Hall).
+Qed.
+
+Lemma state_nonzero starts ALL S m vs k :
+  close_state_at starts ALL S m vs -> account_ok (fst k) = true ->
+  ((exists e : pentry, In e m /\ is_zero (snd (snd e)) = false /\ (fst (fst (snd e)), snd (fst (snd e))) = k)
+   <-> ~ owed starts (Some S) (ind k) ALL == 0).
+Proof.
+  intros (Hm & _ & Hsum) Hk. rewrite <- (Hsum (ind k)). split.
+  - intros ([k0 [[a c] qy]] & Hin & Hz & Hkk). cbn [fst snd] in Hz, Hkk. subst k.
+    rewrite (msum_ind_present m k0 a c qy Hm Hin). intros H0. apply is_zero_value in H0. congruence.
+  - intros Hnz. destruct k as [a c]. cbn [fst snd] in Hk.
+    destruct (sm_get m (pos_key a c)) as [[[a0 c0] q0]|] eqn:Eg.
+    + apply sm_get_some_in in Eg. destruct Hm as [Hs Hok]. pose proof Hok as Hok2. rewrite Forall_forall in Hok2.
+      destruct (Hok2 _ Eg) as (H1 & H2 & _). cbn [fst snd] in H1, H2.
+      destruct (pos_key_inj _ _ _ _ Hk H2 H1) as [<- <-].
+      exists (pos_key a c, (a, c, q0)). split; [exact Eg|]. cbn [fst snd]. split; [|reflexivity].
+      destruct (is_zero q0) eqn:Ez; [|reflexivity]. exfalso. apply Hnz.
+      rewrite (msum_ind_present m _ a c q0 (conj Hs Hok) Eg). apply is_zero_value. exact Ez.
+    + exfalso. apply Hnz. apply msum_ind_absent; [exact (proj2 Hm)|exact Hk|].
+      intros e He Heq. cbn [fst snd] in Heq. destruct e as [k1 v1]. cbn [fst] in Heq. subst k1.
+      assert (Hg : sm_get m (pos_key a c) = Some v1) by (apply sm_get_in_sorted; [exact (proj1 Hm)|exact He]).
+      congruence.
+Qed.
